@@ -1,8 +1,8 @@
 (* C06, part 4: [OutOfFuel] is only about nesting.  For a bundle whose call
    graph is acyclic (a rank on template names decreases along every {call}) a
    recursion budget computed from the syntax suffices:
-       fuel >= (height of the tallest template) * (rank of the entry + 1);
-   in particular [height n] suffices for a call-free tree under any registry.
+       fuel >= (tree_height of the tallest template) * (rank of the entry + 1);
+   in particular [tree_height n] suffices for a call-free tree under any registry.
    (Recursive bundles need a budget that depends on the data: the statement's
    "recursion restricted to data-bounded depth".) *)
 From Coq Require Import Lia ZifyN ZifyBool ZifyNat.
@@ -41,8 +41,8 @@ Proof.
   cbn [fst]. destruct r; cbn in Ha |- *; tauto.
 Qed.
 
-Lemma height_pos n : (0 < height n)%nat.
-Proof. destruct n; cbn [height]; lia. Qed.
+Lemma height_pos n : (0 < tree_height n)%nat.
+Proof. destruct n; cbn [tree_height]; lia. Qed.
 
 Lemma calls_below_syn rank r p i m d b b' :
   calls_below rank r (NMsg p i m d b) = true -> calls_below rank r (NMsg p 0 [] [] b') = true.
@@ -64,7 +64,7 @@ Definition not_call (n : node) : bool := match n with NCall _ _ _ _ _ => false |
 Definition call_free (n : node) : bool := node_all not_call n.
 
 Theorem walk_fuel_callfree cf : forall fuel n,
-  call_free n = true -> (height n <= fuel)%nat -> fuel_ok (walk cf fuel n).
+  call_free n = true -> (tree_height n <= fuel)%nat -> fuel_ok (walk cf fuel n).
 Proof.
   induction fuel as [|fuel IH]; intros n Hn Hf.
   - pose proof (height_pos n). lia.
@@ -87,11 +87,11 @@ Variable rank : bstr -> nat.
 Hypothesis Hrk : reg_ranked rank (c_reg cf) = true.
 Let H := reg_height (c_reg cf).
 
-Lemma template_height_le t : In t (r_templates (c_reg cf)) -> (height (t_node t) <= H)%nat.
-Proof. intros Hin. apply (fold_max_le (fun t => height (t_node t)) t _ Hin). Qed.
+Lemma template_height_le t : In t (r_templates (c_reg cf)) -> (tree_height (t_node t) <= H)%nat.
+Proof. intros Hin. apply (fold_max_le (fun t => tree_height (t_node t)) t _ Hin). Qed.
 
 Theorem walk_fuel_ranked : forall fuel n r,
-  node_all (calls_below rank r) n = true -> (height n + H * r <= fuel)%nat -> fuel_ok (walk cf fuel n).
+  node_all (calls_below rank r) n = true -> (tree_height n + H * r <= fuel)%nat -> fuel_ok (walk cf fuel n).
 Proof.
   induction fuel as [|fuel IH]; intros n r Hn Hf.
   - pose proof (height_pos n). lia.
